@@ -300,7 +300,7 @@ def run(sc, tape):
         states.add(sd)
         if 0 < i < n or torn is not None:
             ntstates.add(sd)
-        v = _check_state(sc, b, typ, link, fs2, model, victim, history, i, torn, n, journal)
+        v = _check_state(sc, b, typ, link, fs2, model, victim, history, i, torn, n, journal, cont=len(trace) + i)
         if len(trace) < 12:
             trace.append({'prefix': i, 'torn': torn, 'next_op': _rec_str(journal[i]) if i < n else 'END'})
         if v is not None:
@@ -329,7 +329,7 @@ def _result(sc, violation, trace, evaluated, nontrivial, faults):
             'faults': faults, 'probes': {}, 'sample': None}
 
 
-def _check_state(sc, b, typ, link, fs2, model, victim, history, i, torn, n, journal):
+def _check_state(sc, b, typ, link, fs2, model, victim, history, i, torn, n, journal, cont=0):
     name = C.backend_name(b)
     where = 'crash after %d/%d fs ops%s (next: %s)' % (
         i, n, ' + %d bytes of the torn write' % torn if torn is not None else '',
@@ -366,18 +366,50 @@ def _check_state(sc, b, typ, link, fs2, model, victim, history, i, torn, n, jour
                     return {'sig': 'C06:bystander-changed:%s' % name,
                             'msg': '%s: %r was not being written but now returns %s instead of %s' % (
                                 where, k, C.describe(got), C.describe(old[0]))}
-        # liveness after restart: the victim address can be stored again and reads back
-        k0, s0 = sc['victim'][1][0]
-        fresh = {'tok': 999999, 'size': 100} if typ != 'progress' else {'tok': 999999, 'size': 10}
-        try:
-            Store(b).store([[k0, fresh]])
-            got = Store(b).load(k0)
-        except Exception as ex:
-            return {'sig': 'C06:store-after-restart-raises:%s:%s' % (type(ex).__name__, name),
-                    'msg': '%s: storing %r again after restart raised %r' % (where, k0, ex)}
-        if got != _value(typ, fresh):
-            return {'sig': 'C06:store-after-restart-lost:%s' % name,
-                    'msg': '%s: a store to %r after restart does not read back (%s)' % (where, k0, C.describe(got))}
+        # continuation after restart: further stores on the post-crash state must behave like a map again -
+        # the stored address reads back, every other address keeps what it returned right after the restart
+        observed = {}
+        for k in sc['pool']:
+            observed[_key(k)] = Store(b).load(k)
+        if typ == 'compact':
+            from checks import bundleparse as BP
+            try:
+                BP.validate_tree(fs2.tree(copy=False), b['version'])
+            except BP.Invalid as ex:
+                return {'sig': 'C06:invalid-bundle-after-crash:%s' % name, 'msg': '%s: %s' % (where, ex)}
+        k0 = sc['victim'][1][0][0]
+        targets = [k0]
+        others = [k for k in sc['pool'] if _key(k) != _key(k0)]
+        if others:
+            targets.append(others[cont % len(others)])
+        for n_follow, kf in enumerate(targets):
+            fresh = {'tok': 999990 + n_follow, 'size': 100 + 2000 * n_follow} if typ != 'progress' else \
+                {'tok': 999990 + n_follow, 'size': 10}
+            try:
+                Store(b).store([[kf, fresh]])
+                got = Store(b).load(kf)
+            except Exception as ex:
+                return {'sig': 'C06:store-after-restart-raises:%s:%s' % (type(ex).__name__, name),
+                        'msg': '%s: storing %r again after restart raised %r' % (where, kf, ex)}
+            if got != _value(typ, fresh):
+                return {'sig': 'C06:store-after-restart-lost:%s' % name,
+                        'msg': '%s: a store to %r after restart does not read back (%s)' % (where, kf, C.describe(got))}
+            observed[_key(kf)] = got
+            for k in sc['pool']:
+                try:
+                    got = Store(b).load(k)
+                except Exception as ex:
+                    return {'sig': 'C06:reader-raises:%s:%s' % (type(ex).__name__, name),
+                            'msg': '%s, then a store to %r: reading %r raised %r' % (where, kf, k, ex)}
+                if got != observed[_key(k)]:
+                    return {'sig': 'C06:store-after-restart-damages-other-tile:%s' % name,
+                            'msg': '%s: after restart a store to %r changed what %r returns: %s -> %s' % (
+                                where, kf, k, C.describe(observed[_key(k)]), C.describe(got))}
+            if typ == 'compact':
+                try:
+                    BP.validate_tree(fs2.tree(copy=False), b['version'])
+                except BP.Invalid as ex:
+                    return {'sig': 'C06:invalid-bundle-after-restart-store:%s' % name, 'msg': '%s: %s' % (where, ex)}
     return None
 
 
